@@ -136,6 +136,7 @@ type cluster struct {
 	attachAt map[int]int // be seq -> number of writes issued when it was attached
 	synced   map[int]bool
 	failedBE map[int]bool // be seq -> failed a call by script
+	regTruth map[int]int64 // node -> revision it registered with, since it last left the volume (ground truth for C09)
 	opFailed map[int]bool // node -> its call failed by script during the current I/O event
 	opIO     bool         // the current event is a data-path operation
 
@@ -362,7 +363,7 @@ func newCluster(cfg *Cfg, scratch string) *cluster {
 		cfg.N = cfg.RF + 1
 	}
 	os.Setenv("REPLICATION_FACTOR", fmt.Sprint(cfg.RF))
-	cl := &cluster{cfg: cfg, fe: &frontend{}, cnt: map[string]int{}, acked: map[int]bool{}, issued: map[int]bool{}, attachAt: map[int]int{}, synced: map[int]bool{}, failedBE: map[int]bool{}, opFailed: map[int]bool{},
+	cl := &cluster{cfg: cfg, fe: &frontend{}, cnt: map[string]int{}, acked: map[int]bool{}, issued: map[int]bool{}, attachAt: map[int]int{}, synced: map[int]bool{}, failedBE: map[int]bool{}, regTruth: map[int]int64{}, opFailed: map[int]bool{},
 		failIO: map[int]bool{}, failREST: map[string]bool{}, stickyREST: map[string]bool{}}
 	cl.down = make([]bool, cfg.N)
 	for i := 0; i < cfg.N; i++ {
@@ -503,6 +504,9 @@ func (cl *cluster) refreshDetached(v controller.VerifView) {
 	}
 	for _, b := range cl.bes {
 		if !live[b.r] && !b.ownerB {
+			if !b.detached {
+				delete(cl.regTruth, b.node) // it was part of the volume and left: its old registration no longer counts
+			}
 			b.detached = true
 		}
 	}
